@@ -85,6 +85,40 @@ func appendSink(info *types.Info, n ast.Node) ast.Expr {
 	return nil
 }
 
+// liftSink also accepts, as a sink, a call of a same-package helper whose body executes the
+// primitive sink on one of the helper's parameters: the item is then the corresponding argument
+// (a constant argument, e.g. the rewritten "SELECT", is not an item of the data path).
+func liftSink(c *core.Ctx, base func(*types.Info, ast.Node) ast.Expr) func(*types.Info, ast.Node) ast.Expr {
+	return func(info *types.Info, n ast.Node) ast.Expr {
+		if e := base(info, n); e != nil {
+			return e
+		}
+		for _, call := range cfgq.ExecCalls(n) {
+			h := c.FnOf(core.CalleeFunc(info, call))
+			if h == nil || h.Decl.Body == nil || h.Pkg.TypesInfo != info || call.Ellipsis.IsValid() {
+				continue
+			}
+			var params []types.Object
+			for _, fl := range h.Decl.Type.Params.List {
+				for _, nm := range fl.Names {
+					params = append(params, info.Defs[nm])
+				}
+			}
+			for _, p := range cfgq.Of(c.Program, h).Points(func(m ast.Node) bool { return base(info, m) != nil }) {
+				item := rootVar(info, base(info, p.Node()))
+				for j, po := range params {
+					if item != nil && po == item && j < len(call.Args) {
+						if _, isConst := core.StringConst(info, call.Args[j]); !isConst {
+							return call.Args[j]
+						}
+					}
+				}
+			}
+		}
+		return nil
+	}
+}
+
 var siteTable = []site{
 	{name: "full", pkg: pkgSync, recv: "DbSyncer", fn: "syncRDBFile", sink: callSink(pkgUtils, "", "RestoreRdbEntry", 1), cells: []cell{
 		{pred: "FilterDB", field: "DB", why: "a key of an excluded database is restored by full sync"},
@@ -119,6 +153,7 @@ func sites(c *core.Ctx) {
 		}
 		info := fn.Pkg.TypesInfo
 		found := 0
+		s.sink = liftSink(c, s.sink)
 		for _, b := range tt.BodiesOf(c.Program, fn) {
 			x := tt.New(b.G)
 			for _, sp := range b.G.Points(func(n ast.Node) bool { return s.sink(info, n) != nil }) {
@@ -553,6 +588,92 @@ func proxyFor(c *core.Ctx, h *core.Fn, pred *types.Func, inner []*ast.CallExpr) 
 	return param, true
 }
 
+// stripConv removes conversions and parentheses.
+func stripConv(info *types.Info, e ast.Expr) ast.Expr {
+	for {
+		e = ast.Unparen(e)
+		call, ok := e.(*ast.CallExpr)
+		if !ok || len(call.Args) != 1 {
+			return e
+		}
+		if tv, ok := info.Types[call.Fun]; !ok || !tv.IsType() {
+			return e
+		}
+		e = call.Args[0]
+	}
+}
+
+func isSel(e ast.Expr, name string) bool {
+	s, ok := e.(*ast.SelectorExpr)
+	return ok && s.Sel.Name == name
+}
+
+// bytesEqConst: the fact says that a string/[]byte expression equals a constant, in any of the
+// equivalent spellings: x == "c", string(x) == "c", bytes.Equal(x, []byte("c")),
+// bytes.Compare(x, []byte("c")) == 0, strings.Compare(x, "c") == 0 (either operand order).
+func bytesEqConst(info *types.Info, f cfgq.Fact) (subj ast.Expr, lit string, ok bool) {
+	constOf := func(e ast.Expr) (string, bool) {
+		if s, ok := core.StringConst(info, e); ok {
+			return s, true
+		}
+		return core.StringConst(info, stripConv(info, e))
+	}
+	pair := func(a, b ast.Expr) (ast.Expr, string, bool) {
+		if s, ok := constOf(b); ok {
+			return a, s, true
+		}
+		if s, ok := constOf(a); ok {
+			return b, s, true
+		}
+		return nil, "", false
+	}
+	switch e := ast.Unparen(f.Expr).(type) {
+	case *ast.BinaryExpr:
+		if e.Op != token.EQL && e.Op != token.NEQ || (e.Op == token.EQL) != f.Val {
+			return nil, "", false
+		}
+		// Compare(a, b) == 0
+		for _, side := range [][2]ast.Expr{{e.X, e.Y}, {e.Y, e.X}} {
+			if call, isCall := ast.Unparen(side[0]).(*ast.CallExpr); isCall && len(call.Args) == 2 {
+				if fn := core.CalleeFunc(info, call); fn != nil && fn.Name() == "Compare" && fn.Pkg() != nil && (fn.Pkg().Path() == "bytes" || fn.Pkg().Path() == "strings") {
+					if z, isInt := core.IntConst(info, side[1]); isInt && z == 0 {
+						return pair(call.Args[0], call.Args[1])
+					}
+				}
+			}
+		}
+		return pair(e.X, e.Y)
+	case *ast.CallExpr:
+		if fn := core.CalleeFunc(info, e); f.Val && fn != nil && fn.Name() == "Equal" && fn.Pkg() != nil && fn.Pkg().Path() == "bytes" && len(e.Args) == 2 {
+			return pair(e.Args[0], e.Args[1])
+		}
+	}
+	return nil, "", false
+}
+
+// guardedByMention: every path to n crosses a branch whose condition mentions one of the named
+// constants (a string constant of that value or a constant object of that name).
+func guardedByMention(info *types.Info, x *tt.X, n ast.Node, names ...string) bool {
+	ok, _ := x.OnlyVia(cfgq.Point{}, n, func(f cfgq.Fact) bool {
+		hit := false
+		ast.Inspect(f.Expr, func(m ast.Node) bool {
+			if e, isExpr := m.(ast.Expr); isExpr {
+				for _, nm := range names {
+					if s, isStr := core.StringConst(info, e); isStr && s == nm {
+						hit = true
+					}
+					if id, isId := e.(*ast.Ident); isId && id.Name == nm {
+						hit = true
+					}
+				}
+			}
+			return !hit
+		})
+		return hit
+	})
+	return ok
+}
+
 func viaText(v string) string {
 	if v == "" {
 		return ""
@@ -821,13 +942,19 @@ func lua(c *core.Ctx) {
 		return false
 	}
 	isLuaKey := func(f cfgq.Fact) bool {
-		return f.Val && pat.Expr(`string(_e.Key) == "lua"`).Match(info, f.Expr, nil) != nil
+		subj, lit, ok := bytesEqConst(info, f)
+		return ok && lit == "lua" && isSel(stripConv(info, subj), "Key")
 	}
 	ok, w := x.OnlyVia(cfgq.Point{}, load.Node(), luaFact(false))
 	c.Check("R6.lua", "RestoreRdbEntry/load-only-without-filter.lua", load.Node().Pos(), ok, "`script load` must be reachable only when conf.Options.FilterLua is false: with filter.lua set a Lua script of the RDB file still reaches the target", w...)
 	ok1, w1 := x.OnlyVia(cfgq.Point{}, load.Node(), isAux)
 	ok2, w2 := x.OnlyVia(cfgq.Point{}, load.Node(), isLuaKey)
-	c.Check("R6.lua", "RestoreRdbEntry/load-only-for-lua-aux", load.Node().Pos(), ok1 && ok2, "`script load` is executed only for AUX entries named \"lua\" (a data key is never sent as a script)", append(w1, w2...)...)
+	if !(ok1 && ok2) && guardedByMention(info, x, load.Node(), "lua", "RdbFlagAUX") {
+		// some test of the entry kind guards the load, in a form that is not recognised
+		c.Undecidedf("R6.lua", "RestoreRdbEntry/load-only-for-lua-aux", load.Node().Pos(), "`script load` is guarded by a test of the entry type/key that is not recognised")
+	} else {
+		c.Check("R6.lua", "RestoreRdbEntry/load-only-for-lua-aux", load.Node().Pos(), ok1 && ok2, "`script load` is executed only for AUX entries named \"lua\" (a data key is never sent as a script)", append(w1, w2...)...)
+	}
 	// the branch: the block whose true edge establishes both facts
 	var branch *cfg.Block
 	for _, bk := range g.CFG.Blocks {
